@@ -1139,5 +1139,9 @@ ASSUMPTIONS = [
     "example-modelled: ReachTheTargetSim is modelled (Model/Reach.lean); proved: WInvWeak of every reachable world, "
     "observations in the declared space; `stepMustNotRaise => step returns` is proved for steps that start in a WInv "
     "world and judged at run time otherwise; its two KeyError branches for in-space actions (findings R1, R2) were "
-    "repaired in the repo and the model follows; pacman.py, comms_blocking.py and multi_agent_sim.py are not modelled",
+    "repaired in the repo and the model follows; comms_blocking.py and multi_agent_sim.py are not modelled",
+    "example-modelled: PacmanSim / PacmanSimSimple are modelled (Model/Pacman.lean) with the exact state a raising step leaves; "
+    "proved: Lawful/WF (C01, C07), reset establishes WInv from anything and forgets (C03, C08), static part and legal vitals in "
+    "every reachable state; the cell structure (WInvFloat), `stepPre => step returns and leaves WInv` and observation membership "
+    "are judged at run time (PM.specPM); reward schemes are compared in units of 1/100 (values that are multiples of 0.01)",
 ]
